@@ -426,6 +426,9 @@ def run(w: World, rep: Report):
     depend(rep, w, 'rules_c06', ('C06.R1', 'C06.R1b'), 'C01.TD1',
            'a script ends at its own explicit RETURN wherever it is issued: every construct that runs a sub-tape propagates '
            'or consumes the return flag as specified, with nothing that can raise in between (C06.R1/R1b re-evaluated)', floor=14)
+    depend(rep, w, 'rules_c09', ('C09.R1',), 'C01.TD9',
+           'the limits the caller configures reach the tape of every script and every sub-tape: a tape built without them '
+           'runs under the default call-stack limit and the verdict changes (C09.R1 re-evaluated)', floor=20)
     depend(rep, w, 'rules_c07', ('C07.R1',), 'C01.TD71',
            'junk an earlier script left on the shared stack cannot silently fall off the bottom: the stack grows only '
            'through the checked put, whose guards are exact (C07.R1 re-evaluated)', floor=12)
